@@ -61,7 +61,8 @@ def body_of(fn):
 
 
 SPK = {"domain": "Dom", "range": "Ran", "dual_to_range": "Dual", "space": "Space", "dual_space": "DualSp",
-       "_domain": "Dom", "_range": "Ran", "_dual_to_range": "Dual"}
+       "_domain": "Dom", "_range": "Ran", "_dual_to_range": "Dual",
+       "domain_spaces": "Dom", "range_spaces": "Ran", "dual_to_range_spaces": "Dual"}
 
 
 class Scope:
@@ -757,6 +758,85 @@ def gridfun(ctx, lines, info):
     return src
 
 
+# ---- blocked operators: strong form, Sum / Scaled / Product classes, dunders (same embedding as boundary operators; the
+# space ids of the model then stand for *lists* of spaces and invmass for the block-diagonal inverse mass operator) ----------
+def blocked(ctx, lines, info):
+    import re as _re
+    src = Src(ctx, FILES["blocked"])
+    specs = [("SumBlockedOperator", {"op1": "SL", "op2": "SR"}), ("ScaledBlockedOperator", {"op": "SL"}),
+             ("ProductBlockedOperator", {"op1": "SL", "op2": "SR"})]
+    names = []
+    for cname, args in specs:
+        fields = ctor_fields(src, cname, args)
+        g = ctor_guard(src, cname, args)
+        sc = Scope(src, {}, fields)
+        sp = {}
+        for prop, key in (("domain_spaces", "dom"), ("range_spaces", "ran"), ("dual_to_range_spaces", "dual")):
+            fn = src.method(cname, prop)
+            v = single_return(src, fn)
+            if not (isinstance(v, ast.Call) and u(v.func) == "tuple" and len(v.args) == 1):
+                src.fail(fn, "%s.%s is not tuple(<operand>.<list>)" % (cname, prop))
+            sp[key] = sc.space(v.args[0])
+        body = sc.tm(single_return(src, src.method(cname, "_assemble")))
+        names.append(cname)
+        lines.append('Definition %s : bclass := {| b_name := "%s"; b_guard := %s;\n  b_dom := (%s, %s); b_ran := (%s, %s); '
+                     'b_dual := (%s, %s);\n  b_body := %s |}.' % (cname, cname, g, sp["dom"][0], sp["dom"][1], sp["ran"][0],
+                                                                sp["ran"][1], sp["dual"][0], sp["dual"][1], body))
+        info["classes"][cname] = {"guard": g, "spaces": sp, "body": body}
+    lines.append("Definition blocked_classes : list bclass := [%s]." % "; ".join(names))
+    base = "BlockedOperatorBase"
+    sc = Scope(src, {"self": "SSelf", "other": "SR"})
+    add = body_of(src.method(base, "__add__"))
+    if not (len(add) == 2 and u(add[0]) in ("if not isinstance(other, BlockedOperatorBase):\n    return NotImplemented",
+                                            "if not isinstance(other, BlockedOperatorBase):\n    return NotImplementedError")
+            and isinstance(add[1], ast.Return)):
+        src.fail(src.method(base, "__add__"), "BlockedOperatorBase.__add__ changed")
+    addx = sc.dexp(add[1].value)
+    neg = sc.dexp(single_return(src, src.method(base, "__neg__")))
+    sub = sc.dexp(single_return(src, src.method(base, "__sub__")))
+    matmul = sc.dexp(single_return(src, src.method(base, "__matmul__")))
+    mul = dispatch(src, src.method(base, "__mul__"), sc)
+    rmul = dispatch(src, src.method(base, "__rmul__"), sc)
+    lb = [v for k, v in mul if k == "OList"]
+    if len(lb) != 1 or isinstance(lb[0], str):
+        src.fail(src.method(base, "__mul__"), "list branch of __mul__ not found")
+    txt = [u(x) for x in lb[0][1]]
+    for need in ("weak_op = self.weak_form()", "x_in = coefficients_from_grid_functions_list(list_input)", "res = weak_op * x_in"):
+        if need not in txt:
+            src.fail(src.method(base, "__mul__"), "blocked apply changed: missing `%s`" % need)
+    m = [_re.fullmatch(r"output_list = grid_function_list_from_projections\(res, self\.(\w+), self\.(\w+)\)", t) for t in txt]
+    m = [x for x in m if x]
+    if len(m) != 1 or m[0].group(1) not in SPK or m[0].group(2) not in SPK:
+        src.fail(src.method(base, "__mul__"), "cannot tell which space lists label the result of B * [f, ...]")
+    asp, adu = SPK[m[0].group(1)], SPK[m[0].group(2)]
+    # strong_form: block-diagonal operator of get_inverse_mass_matrix(self.<X>[index], self.<Y>[index])
+    sf = body_of(src.method(base, "strong_form"))
+    if not (len(sf) == 2 and isinstance(sf[0], ast.If) and u(sf[0].test) == "self._range_map is None"
+            and u(sf[1]) == "return self._range_map * self.weak_form()"):
+        src.fail(src.method(base, "strong_form"), "blocked strong_form changed shape")
+    inner = [u(x) for x in sf[0].body]
+    if not (inner[0] == "nrows = len(self.range_spaces)" and inner[1] == "_range_ops = _np.empty((nrows, nrows), dtype='O')"
+            and inner[3] == "self._range_map = BlockedDiscreteOperator(_range_ops)" and len(inner) == 4):
+        src.fail(sf[0], "blocked strong_form changed shape")
+    mm = _re.fullmatch(r"for index in range\(nrows\):\n    _range_ops\[index, index\] = get_inverse_mass_matrix\("
+                       r"self\.(\w+)\[index\], self\.(\w+)\[index\]\)", inner[2])
+    if not mm or mm.group(1) not in SPK or mm.group(2) not in SPK:
+        src.fail(sf[0], "cannot tell which space lists the inverse mass matrices of the blocked strong form are taken from")
+    strong = "(TMul (TInvMass %s %s) (TWeak SSelf))" % (SPK[mm.group(1)], SPK[mm.group(2)])
+    wf = [u(x) for x in body_of(src.method(base, "weak_form"))]
+    if wf != ["if not self._cached:\n    self._cached = self._assemble()", "return self._cached"]:
+        src.fail(src.method(base, "weak_form"), "blocked weak_form changed shape")
+
+    def disp(entries):
+        return "[" + "; ".join("(%s, %s)" % (k, v if isinstance(v, str) else "DApply") for k, v in entries) + "]"
+    lines.append("Definition BBD : bdunders := {|\n  bd_add := %s; bd_neg := %s; bd_sub := %s;\n  bd_mul := %s;\n  bd_rmul := %s;\n"
+                 "  bd_matmul := %s;\n  bd_strong := %s;\n  bd_apply_guard := GFalse; bd_apply_space := %s; bd_apply_dual := %s;\n"
+                 "  bd_apply_proj := (TMul (TWeak SSelf) (TCoef SR)) |}." % (addx, neg, sub, disp(mul), disp(rmul), matmul, strong,
+                                                                          asp, adu))
+    info["blocked_strong"] = (mm.group(1), mm.group(2))
+    return src
+
+
 # ---- blocked pack / unpack ---------------------------------------------------------------------------------------------
 def packing(ctx, lines, info):
     src = Src(ctx, FILES["blocked"])
@@ -851,6 +931,7 @@ def op_classes(ctx):
     discrete(ctx, lines, info)
     packing(ctx, lines, info)
     gridfun(ctx, lines, info)
+    blocked(ctx, lines, info)
     others = [Src(ctx, FILES[k]) for k in ("blocked", "discrete", "gridfun")]
     reg = Registry([bsrc, psrc, asm] + others)
     rows = resolution(reg, set(FILES.values()))
